@@ -6,21 +6,28 @@
     pageInfo was selected, how each getter call handed over its result, the response and the
     (min, max, limit) triples the getter received. *)
 From Coq Require Import List NArith ZArith Bool String.
-From ApiFu Require Import Base.Sexp TimeConn.TimeModel TimeConn.TimeSpec.
+From ApiFu Require Import Base.Sexp TimeConn.TimeModel TimeConn.TimeSpec TimeConn.TimeErrModel.
 Import ListNotations.
 Open Scope string_scope.
 
 (** ** Observations *)
 Inductive ocur := OcNone | OcBad | OcSome (e : edge).
 Record oinfo := { oi_prev : bool; oi_next : bool; oi_start : ocur; oi_end : ocur }.
+(** an error message of the response: the error the harness getter raised in its i-th call, the
+    error of the harness's ResolveTotalCount, anything else *)
+Inductive emsg := MG (i : Z) | MTC | MOther.
 Inductive obs :=
-| ObCrash | ObHang | ObError | ObMalformed
-| ObPage (edges : list edge) (cursors : list ocur) (info : option oinfo).
+| ObCrash | ObHang | ObError (msgs : list emsg) | ObMalformed
+| ObPage (edges : list edge) (cursors : list ocur) (info : option oinfo) (total : option Z).
 
 Record step := {
-  s_args : args; s_info : bool; s_pres : list pres; s_obs : obs;
-  s_calls : list (query * list edge)      (* each triple the getter received, and its answer *)
+  s_args : args; s_sel : sel; s_tc : tcres; s_xpres : list xpres; s_obs : obs;
+  s_calls : list (query * list edge);     (* each triple the getter received, and its answer *)
+  s_raised : list Z;                      (* per call: 0 = no error, 1 = an error, 2 = a typed nil error *)
+  s_tccalls : Z                           (* calls of ResolveTotalCount *)
 }.
+Definition s_info (s : step) : bool := want_info (s_sel s).
+Definition s_pres (s : step) : list pres := map xp (s_xpres s).
 Definition s_triples (s : step) : list query := map fst (s_calls s).
 
 Inductive kind := KSingle | KWalk (fwd : bool) (n : Z).
@@ -56,12 +63,44 @@ Definition dec_args (s : sexp) : option args :=
   | None => None
   end.
 
-Definition dec_pres (s : sexp) : option pres :=
+Definition dec_gerr (i : nat) (z : Z) : option gerr :=
+  if Z.eqb z 0 then Some NoErr else if Z.eqb z 1 then Some (Err (Z.of_nat i))
+  else if Z.eqb z 2 then Some TypedNilErr else None.
+
+(** (promise nil error ...): the i-th call's error, when it raises one, is identified by i *)
+Definition dec_xpres (i : nat) (s : sexp) : option xpres :=
   match s with
-  | SL [p; n] => match as_bool p, as_bool n with
-                 | Some p', Some n' => Some {| by_promise := p'; nil_when_empty := n' |}
-                 | _, _ => None
-                 end
+  | SL (p :: n :: e :: _) =>
+      match as_bool p, as_bool n, as_Z e with
+      | Some p', Some n', Some e' =>
+          match dec_gerr i e' with
+          | Some ge => Some {| xp := {| by_promise := p'; nil_when_empty := n' |}; xerr := ge |}
+          | None => None
+          end
+      | _, _, _ => None
+      end
+  | _ => None
+  end.
+Fixpoint dec_xpres_list (i : nat) (l : list sexp) : option (list xpres) :=
+  match l with
+  | [] => Some []
+  | x :: l' => match dec_xpres i x, dec_xpres_list (S i) l' with
+               | Some a, Some b => Some (a :: b)
+               | _, _ => None
+               end
+  end.
+
+Definition dec_emsg (s : sexp) : option emsg :=
+  match untag s with
+  | Some (t, [i]) => if String.eqb t "g" then match as_Z i with Some z => Some (MG z) | None => None end else None
+  | Some (t, []) => if String.eqb t "tc" then Some MTC else if String.eqb t "other" then Some MOther else None
+  | _ => None
+  end.
+
+Definition dec_tc (s : sexp) : option tcres :=
+  match untag s with
+  | Some (t, [n]) => if String.eqb t "val" then match as_Z n with Some z => Some (TCVal z) | None => None end else None
+  | Some (t, []) => if String.eqb t "err" then Some (TCErr 0) else None
   | _ => None
   end.
 
@@ -95,14 +134,15 @@ Definition dec_obs (s : sexp) : option obs :=
   | Some (t, l) =>
       if String.eqb t "crash" then Some ObCrash
       else if String.eqb t "hang" then Some ObHang
-      else if String.eqb t "error" then Some ObError
+      else if String.eqb t "error" then
+        match map_opt dec_emsg l with Some ms => Some (ObError ms) | None => None end
       else if String.eqb t "malformed" then Some ObMalformed
       else if String.eqb t "page" then
         match l with
-        | [SL es; SL cs; i] =>
-            match map_opt dec_edge es, map_opt dec_ecur cs, dec_oinfo i with
-            | Some es', Some cs', Some i' => Some (ObPage es' cs' i')
-            | _, _, _ => None
+        | [SL es; SL cs; i; tot] =>
+            match map_opt dec_edge es, map_opt dec_ecur cs, dec_oinfo i, as_option as_Z tot with
+            | Some es', Some cs', Some i', Some tot' => Some (ObPage es' cs' i' tot')
+            | _, _, _, _ => None
             end
         | _ => None
         end
@@ -112,10 +152,16 @@ Definition dec_obs (s : sexp) : option obs :=
 
 Definition dec_call (s : sexp) : option (query * list edge) :=
   match s with
-  | SL [a; b; c; SL r] => match as_Z a, as_Z b, as_Z c, map_opt dec_edge r with
+  | SL (a :: b :: c :: SL r :: _) =>
+                          match as_Z a, as_Z b, as_Z c, map_opt dec_edge r with
                           | Some x, Some y, Some z, Some r' => Some (mkq x y z, r')
                           | _, _, _, _ => None
                           end
+  | _ => None
+  end.
+Definition dec_raised (s : sexp) : option Z :=
+  match s with
+  | SL [_; _; _; _; k] => as_Z k
   | _ => None
   end.
 
@@ -124,10 +170,19 @@ Definition dec_step (s : sexp) : option step :=
   | Some (a :: l) =>
       match dec_args a, field1 "info" l, field1 "pres" l, field1 "obs" l, field1 "triples" l with
       | Some a', Some i, Some (SL ps), Some o, Some (SL ts) =>
-          match as_bool i, map_opt dec_pres ps, dec_obs o, map_opt dec_call ts with
-          | Some i', Some ps', Some o', Some ts' =>
-              Some {| s_args := a'; s_info := i'; s_pres := ps'; s_obs := o'; s_calls := ts' |}
-          | _, _, _, _ => None
+          match as_bool i, dec_xpres_list 0 ps, dec_obs o, map_opt dec_call ts, map_opt dec_raised ts with
+          | Some i', Some ps', Some o', Some ts', Some rs' =>
+              match field1 "total" l, field1 "tc" l, field1 "tccalls" l with
+              | Some t, Some tc, Some n =>
+                  match as_bool t, dec_tc tc, as_Z n with
+                  | Some t', Some tc', Some n' =>
+                      Some {| s_args := a'; s_sel := {| want_info := i'; want_total := t' |}; s_tc := tc';
+                              s_xpres := ps'; s_obs := o'; s_calls := ts'; s_raised := rs'; s_tccalls := n' |}
+                  | _, _, _ => None
+                  end
+              | _, _, _ => None
+              end
+          | _, _, _, _, _ => None
           end
       | _, _, _, _, _ => None
       end
@@ -183,6 +238,7 @@ Definition qcount (q : query) (l : list query) : nat := List.length (filter (que
 Definition queries_same (a b : list query) : bool :=
   forallb (fun q => Nat.eqb (qcount q a) (qcount q b)) (a ++ b).
 Definition pres_fun (ps : list pres) : nat -> pres := fun i => nth i ps sync_pres.
+Definition xpres_fun (ps : list xpres) : nat -> xpres := fun i => nth i ps (xsync sync_pres).
 
 Definition of_edge (e : edge) : sexp := SL [SZ (nano e); SStr (cid e)].
 
@@ -213,16 +269,41 @@ Definition at_outside_cursor (a : args) (e : edge) : bool :=
 Definition crash_key (ps : list pres) : string :=
   if existsb (fun p => by_promise p && nil_when_empty p) ps then "crash-promise-nil-result" else "crash".
 
+(** the calls (by index) in which the harness getter really raised an error *)
+Fixpoint raised_real (i : Z) (rs : list Z) : list Z :=
+  match rs with
+  | [] => []
+  | k :: rs' => (if Z.eqb k 1 then [i] else []) ++ raised_real (Z.succ i) rs'
+  end.
+Definition tc_fails (s : step) : bool :=
+  want_total (s_sel s) && match s_tc s with TCErr _ => true | TCVal _ => false end.
+
 Definition oracle_step (E : list edge) (g : query -> list edge) (i : nat) (s : step) : option sexp :=
   let a := s_args s in
   let fail (key : string) (d : list sexp) := Some (v_oracle_fail key (of_nat i :: d)) in
+  let raised := raised_real 0 (s_raised s) in
   match s_obs s with
   | ObMalformed => fail "malformed-response" []
   | ObCrash => fail (crash_key (s_pres s)) []
   | ObHang => fail "hang" []
-  | ObError => if args_ok a then fail "error-on-valid-arguments" [] else None
-  | ObPage es cs info =>
+  | ObError msgs =>
+      if negb (args_ok a) then None
+      else if existsb (fun m => match m with MG k => negb (existsb (Z.eqb k) raised) | _ => false end) msgs
+      then fail "error-not-raised-by-any-issued-call" []
+      else if existsb (fun m => match m with MTC => negb (tc_fails s) | _ => false end) msgs
+      then fail "total-count-error-out-of-nothing" []
+      else if existsb (fun m => match m with MOther => true | _ => false end) msgs || match msgs with [] => true | _ => false end
+      then fail "error-on-valid-arguments" []
+      else None
+  | ObPage es cs info tot =>
       if negb (args_ok a) then None     (* not this property's business; the model comparison sees it *)
+      else if match raised with [] => false | _ => true end then fail "page-despite-getter-error" []
+      else if tc_fails s then fail "page-despite-total-count-error" []
+      else if negb (match tot, want_total (s_sel s), s_tc s with
+                    | Some n, true, TCVal m => Z.eqb n m
+                    | None, false, _ => true
+                    | _, _, _ => false
+                    end) then fail "total-count-wrong" []
       else
         let ref := TimeRef E a in
         match find (fun e => negb (memb e E)) es with
@@ -263,13 +344,25 @@ Definition oracle_step (E : list edge) (g : query -> list edge) (i : nat) (s : s
 (** ** The model against the observation *)
 Definition compare_step (E : list edge) (g : query -> list edge) (i : nat) (s : step) : option sexp :=
   let a := s_args s in
-  let (mo, mq) := conn current g (pres_fun (s_pres s)) (s_info s) a in
+  let '(mo, mq, mtc) := xconn_current g (xpres_fun (s_xpres s)) (s_sel s) (s_tc s) a in
   let bad (what : string) := Some (v_mismatch what [of_nat i]) in
+  let is_other m := match m with MOther => true | _ => false end in
+  let matches_ferr m e := match m, e with
+                          | MG k, EGetter id => Z.eqb k id
+                          | MTC, ETotal _ => true
+                          | MOther, EBogus => true
+                          | _, _ => false
+                          end in
   match mo, s_obs s with
-  | OError, ObError => None
-  | OPanic, ObCrash => None
-  | OPage mes minfo, ObPage es _ info =>
+  | XArgError, ObError msgs => if forallb is_other msgs then None else bad "argument-error-expected"
+  | XFieldError errs, ObError msgs =>
+      if match msgs with [] => false | _ => true end && forallb (fun m => existsb (matches_ferr m) errs) msgs
+      then None else bad "which-error"
+  | XPanic, ObCrash => None
+  | XPage mes minfo mtot, ObPage es _ info tot =>
       if negb (edges_eqb mes es) then bad "edges"
+      else if negb (match mtot, tot with Some x, Some y => Z.eqb x y | None, None => true | _, _ => false end)
+      then bad "total-count"
       else match minfo, info with
            | None, None => None
            | Some mi, Some oi =>
@@ -288,13 +381,13 @@ Definition compare_step (E : list edge) (g : query -> list edge) (i : nat) (s : 
 
 (** ** Walks *)
 Definition pages (steps : list step) : list (list edge) :=
-  map (fun s => match s_obs s with ObPage es _ _ => es | _ => [] end) steps.
+  map (fun s => match s_obs s with ObPage es _ _ _ => es | _ => [] end) steps.
 Definition window_args (from to : option Z) : args :=
   {| a_first := None; a_last := None; a_after := CAbsent; a_before := CAbsent; a_from := from; a_to := to |}.
 
 Definition more_flag (fwd : bool) (s : step) : bool :=
   match s_obs s with
-  | ObPage _ _ (Some oi) => if fwd then oi_next oi else oi_prev oi
+  | ObPage _ _ (Some oi) _ => if fwd then oi_next oi else oi_prev oi
   | _ => false
   end.
 
@@ -339,7 +432,12 @@ Definition step_classes (E : list edge) (g : query -> list edge) (s : step) : li
   let cond (b : bool) (c : string) := if b then [c] else [] in
   let m := conn current g (pres_fun ps) (s_info s) a in
   let shared := existsb (fun c => existsb (fun e => Z.eqb (nano e) (nano c) && negb (cursor_eqb e c)) E) (supplied a) in
-  let nonempty := match s_obs s with ObPage (_ :: _) _ _ => true | _ => false end in
+  let nonempty := match s_obs s with ObPage (_ :: _) _ _ _ => true | _ => false end in
+  let xps := xpres_fun (s_xpres s) in
+  let xm := xconn_current g xps (s_sel s) (s_tc s) a in
+  let nq := List.length (snd m) in
+  let failing := filter (fun k => match xerr (xps k) with Err _ => true | _ => false end) (seq 0 nq) in
+  let is_err o := match o with XFieldError _ => true | _ => false end in
   cond (match a_first a with Some _ => true | None => false end) "first"
   ++ cond (match a_last a with Some _ => true | None => false end) "last"
   ++ cond (match a_after a with CCursor _ => true | _ => false end) "after"
@@ -358,15 +456,40 @@ Definition step_classes (E : list edge) (g : query -> list edge) (s : step) : li
   ++ cond (existsb by_promise ps && forallb by_promise ps) "all-promise"
   ++ cond (existsb by_promise ps && negb (forallb by_promise ps)) "mixed-sync-promise"
   ++ cond (existsb nil_when_empty ps) "nil-results"
-  ++ cond (match s_obs s with ObError => true | _ => false end) "error"
+  ++ cond (match s_obs s with ObError _ => true | _ => false end) "error"
   ++ cond (negb (s_info s)) "no-pageinfo"
   ++ cond (args_ok a && more_ref E a) "truncated"
   ++ cond (args_ok a && negb nonempty) "empty-page"
   ++ cond (existsb (fun e => big (nano e)) (E ++ supplied a)) "extreme-nanoseconds"
-  ++ cond (queries_same (snd m) (s_triples s)) "triples-equal-model"
-  ++ cond (negb (queries_same (snd m) (s_triples s))) "triples-differ-from-model"
+  ++ cond (queries_same (snd (fst xm)) (s_triples s)) "triples-equal-model"
+  ++ cond (negb (queries_same (snd (fst xm)) (s_triples s))) "triples-differ-from-model"
+  ++ cond (match snd xm with Some n => Z.eqb (Z.of_nat n) (s_tccalls s) | None => true end) "total-count-calls-equal-model"
+  ++ cond (match snd xm with Some n => negb (Z.eqb (Z.of_nat n) (s_tccalls s)) | None => false end) "total-count-calls-differ-from-model"
+  ++ cond (existsb (fun k => negb (by_promise (xp (xps k)))) failing && is_err (fst (fst xm))) "getter-error-sync"
+  ++ cond (existsb (fun k => by_promise (xp (xps k))) failing && is_err (fst (fst xm))) "getter-error-promise"
+  ++ cond (Nat.ltb 1 (List.length failing)) "several-getter-errors"
+  ++ cond (Nat.ltb (List.length (snd (fst xm))) nq && is_err (fst (fst xm))) "queries-cut-short-by-error"
+  ++ cond (match failing with
+           | k :: _ => by_promise (xp (xps k)) && existsb (fun j => negb (by_promise (xp (xps j)))) failing
+           | [] => false
+           end) "sync-error-beats-earlier-promise-error"
+  ++ cond (match failing with [] => false | _ => true end
+           && existsb (fun c => match snd c with [] => false | _ => true end) (s_calls s)) "error-beside-fetched-edges"
+  ++ cond (existsb (fun k => match xerr (xps k) with TypedNilErr => true | _ => false end) (seq 0 nq)) "typed-nil-error"
+  ++ cond (negb (match fst (fst xm), fst (fst (xconn current false g xps (s_sel s) (s_tc s) a)) with
+                 | XPage x _ _, XPage y _ _ => edges_eqb x y
+                 | XFieldError x, XFieldError y => Nat.eqb (List.length x) (List.length y)
+                                                   && match x, y with EBogus :: _, EBogus :: _ => true
+                                                      | EBogus :: _, _ => false | _, EBogus :: _ => false | _, _ => true end
+                 | XArgError, XArgError => true
+                 | XPanic, XPanic => true
+                 | _, _ => false
+                 end)) "typed-nil-error-fix-matters"
+  ++ cond (want_total (s_sel s)) "total-count"
+  ++ cond (tc_fails s) "total-count-error"
+  ++ cond (want_total (s_sel s) && match fst (fst xm), snd (fst xm) with XPage _ _ _, [] => true | _, _ => false end) "total-count-without-fetch"
   ++ cond (match fst m, s_obs s with
-           | OPage _ (Some mi), ObPage _ _ (Some oi) =>
+           | OPage _ (Some mi), ObPage _ _ (Some oi) _ =>
                negb (match a_first a with
                      | Some _ => Bool.eqb (oi_prev oi) (has_prev mi)
                      | None => Bool.eqb (oi_next oi) (has_next mi)
@@ -396,7 +519,8 @@ Definition check (c : sexp) : sexp :=
           match map_opt dec_edge es, dec_getter gk, dec_kind k, map_opt dec_step ss with
           | Some E, Some mk, Some kd, Some steps =>
               if negb (nodupb E) then v_bad "duplicate-cursors-in-data-set"
-              else if negb (forallb (fun s => forallb (call_honoured E (mk E)) (s_calls s)) steps)
+              else if negb (forallb (fun s => forallb (fun cr => Z.eqb (snd cr) 1 || call_honoured E (mk E) (fst cr))
+                                                      (combine (s_calls s) (s_raised s))) steps)
               then v_bad "harness-getter-does-not-honour-the-triple"
               else
                 let g := mk E in
